@@ -17,6 +17,9 @@ run():
   B  generated Core + ORM statements (harness/lib_binds.py) executed on SQLite under
      qmark / numeric / named engines: shared warm cache vs cache cleared before each
      statement vs query_cache_size=0; SQL + parameters at the cursor and rows compared
+  D  execution options outside the key: histories under changing schema_translate_maps
+     (executemany INSERT..RETURNING with a schema-qualified subquery in VALUES) and ORM
+     polymorphic selectin loads with per-execution literals in loader options
   C  correspondence: construct_params(extracted_parameters=…) vs the Lean model
 """
 import ast
@@ -209,6 +212,7 @@ class ExecEnv:
         self.sa, self.lb = sa, lb
         self.fx = lb.Fixture()
         self.fx.mapped()
+        self.fx.mapped_poly()
         self.engines = {}
         self.caps = {}
         for style in self.STYLES:
@@ -234,7 +238,22 @@ def exec_one(env, key, st, params, sp):
     out = {}
     dml = sp["kind"] in ("insert", "insertmany", "update", "delete", "insert_select")
     try:
-        if sp["kind"] == "orm":
+        if sp["kind"] == "orm_poly":
+            with Session(e) as s:
+                objs = s.execute(st).unique().scalars().all()
+                out["rows"] = [
+                    (
+                        o.id,
+                        type(o).__name__,
+                        o.name,
+                        tuple((m.id, m.name) for m in o.machines) if hasattr(o, "machines") else None,
+                        o.__dict__.get("bonus", "unset") if type(o).__name__ == "Engineer" else None,
+                        getattr(o, "budget", None),
+                    )
+                    for o in objs
+                ]
+                s.rollback()
+        elif sp["kind"] == "orm":
             with Session(e) as s:
                 objs = s.execute(st).unique().scalars().all()
                 out["rows"] = [(o.id, o.x, getattr(o, "y", None) if "y" in o.__dict__ else "deferred", tuple((u.id, u.v) for u in o.us)) for o in objs]
@@ -322,6 +341,9 @@ def structural_variant(lb, sp, rng):
         if r < 0.7:
             v["cols"] = v["cols"] + [["col", "t", rng.choice(["x", "y"])]]
             return v
+    if sp["kind"] == "orm_poly":
+        v["opt"] = rng.choice([x for x in ["machines_crit", "machines_power", "with_expr", "both", "explicit_poly", "explicit_poly_expr", "none"] if x != sp["opt"]])
+        return v
     if sp["kind"] == "orm":
         v["load"] = rng.choice([x for x in ["none", "selectin", "joined", "subquery", "lazy", "selectin_crit", "joined_crit", "load_only", "wlc"] if x != sp["load"]])
         return v
@@ -404,6 +426,46 @@ def rebind_cases(ctx, env, n):
         ctx.count("C:model-lines", len(req))
 
 
+# --------------------------------------------------------------------------- D: execution options that are not part of the key
+def schema_map_stream(ctx, n, record=True):
+    """statements (incl. executemany INSERT..RETURNING with a schema-qualified scalar
+    subquery in VALUES) re-executed through ONE compiled cache under different non-empty
+    schema_translate_maps: warm == cold == direct construct (machinery of C16)"""
+    from harness import vlib
+    from harness.props import c16
+
+    env = c16.Env()
+    sub = vlib.Ctx("C02", ctx.tier, ctx.seed, ctx.level)
+    sub.rng = ctx.rng
+    for _ in range(n):
+        specs = []
+        for _k in range(ctx.rng.randint(1, 2)):
+            sp = c16.gen_spec(ctx.rng)
+            if ctx.rng.random() < 0.7:
+                sp["kind"] = ctx.rng.choice(["insertmany_sub", "insertmany_sub", "insertmany_plain", "select", "subq"])
+                if sp["kind"].startswith("insertmany") and "rows" not in sp:
+                    base = 70 + ctx.rng.randint(0, 20)
+                    sp["rows"] = [{"pid": base + i, "px": ctx.rng.randint(1, 99)} for i in range(ctx.rng.randint(2, 5))]
+                    sp["returning"] = ctx.rng.random() < 0.8
+                    sp["page"] = ctx.rng.choice([None, None, 1, 2])
+            if sp["kind"].startswith("ddl") or sp["kind"] == "create_all":
+                sp["kind"] = "select"
+            specs.append(sp)
+        wn = ctx.rng.random() < 0.5
+        hist = [(ctx.rng.randrange(len(specs)), c16.gen_map(ctx.rng, wn)) for _ in range(ctx.rng.randint(2, 6))]
+        c16.check_history(sub, env, specs, hist, None, record=False)
+        if record:
+            ctx.count("D:schema-map-history")
+            ctx.case(json.dumps([specs, [[i, str(m)] for i, m in hist]], sort_keys=True, default=str), nontrivial=True)
+    n_v = 0
+    for v in sub.violations:
+        if v["key"] == c16.KEY_F11:
+            continue
+        n_v += 1
+        ctx.violation("c02:schema-map:" + v["key"], dict(v["case"], stream="schema"), v["detail"])
+    return n_v
+
+
 # --------------------------------------------------------------------------- entry points
 def feat_state():
     from harness import lib_feat as lf
@@ -449,7 +511,7 @@ def run(ctx, deep=False):
     ]
     thorough = ctx.tier == "thorough" or deep
     st = feat_state()
-    nA = 2500 if thorough else 120
+    nA = 2500 if thorough else 80
     for i in range(nA):
         base = lf.gen_feat(ctx.rng)
         m, tog = lf.mutate(base, ctx.rng)
@@ -459,16 +521,19 @@ def run(ctx, deep=False):
         ctx.count("A:toggle=%s" % tog)
         if i < 2:
             ctx.sample({"feature-sequence": [base, {"mutated": tog}]})
-    for base, m, tog in lf.sweep_pairs(ctx.rng, None if thorough else 5):
+    for base, m, tog in lf.sweep_pairs(ctx.rng, None if thorough else 4):
         feat_sequence(ctx, st, [base, m, lf.reroll(base, ctx.rng)], "sweep=%s:%s->%s" % (tog, base[tog], m[tog]))
         ctx.case(json.dumps([base, m], sort_keys=True), nontrivial=True)
         ctx.count("A:sweep")
     feat_sequence(ctx, st, expanding_pair(), "expanding-flag")
     feat_sequence(ctx, st, callable_pair(), "callable-flag")
     env = ExecEnv()
-    nB = 700 if thorough else 70
+    nB = 700 if thorough else 50
     for i in range(nB):
-        if ctx.rng.random() < 0.3:
+        r_ = ctx.rng.random()
+        if r_ < 0.2:
+            sp = lb.gen_poly_spec(ctx.rng)
+        elif r_ < 0.45:
             sp = lb.gen_orm_spec(ctx.rng, {"weird_p": 0.0, "le_p": 0.1})
         else:
             sp = lb.gen_stmt_spec(ctx.rng, {"weird_p": 0.2, "le_p": 0.1})
@@ -480,6 +545,7 @@ def run(ctx, deep=False):
         seq.append(lb.reroll_spec(sp, ctx.rng))
         exec_sequence(ctx, env, seq)
         ctx.case(json.dumps(seq, sort_keys=True), nontrivial=True)
+    schema_map_stream(ctx, 200 if thorough else 15)
     rebind_cases(ctx, env, 400 if thorough else 80)
     ctx.exhaustive = False
 
@@ -517,7 +583,12 @@ def replay(ctx, obj):
 
     warnings.simplefilter("ignore")
     c = obj["case"]
-    if c.get("stream") == "feat":
+    if c.get("stream") == "schema":
+        from harness.props import c16
+
+        hist = [(i, None if m is None else {k: v for k, v in m}) for i, m in c["history"]]
+        bad = c16.check_history(ctx, c16.Env(), c["specs"], hist, None, record=False) > 0
+    elif c.get("stream") == "feat":
         bad = feat_sequence(ctx, feat_state(), c["seq"], c.get("label", ""), record=False) > 0
     else:
         bad = exec_sequence(ctx, ExecEnv(), c["seq"], record=False) > 0
